@@ -143,7 +143,29 @@ func (s *ssTicketStore) serialize() error {
 	if err != nil {
 		return err
 	}
-	return os.WriteFile(s.filePath, jsonStr, 0o600)
+	return atomicWriteFile(s.filePath, jsonStr, 0o600)
+}
+
+// atomicWriteFile writes data to a temporary file in the same directory as
+// fPath and renames it over the destination, so that a crash mid-write can not
+// leave a truncated or partially written file behind.
+func atomicWriteFile(fPath string, data []byte, perm os.FileMode) error {
+	tmpPath := fPath + ".tmp"
+	f, err := os.OpenFile(tmpPath, os.O_WRONLY|os.O_CREATE|os.O_TRUNC, perm)
+	if err != nil {
+		return err
+	}
+	if _, err = f.Write(data); err == nil {
+		err = f.Sync()
+	}
+	if cerr := f.Close(); err == nil {
+		err = cerr
+	}
+	if err != nil {
+		_ = os.Remove(tmpPath)
+		return err
+	}
+	return os.Rename(tmpPath, fPath)
 }
 
 func loadTicketStore(stateDir string) (*ssTicketStore, error) {
